@@ -56,6 +56,57 @@ fn model_deprecated(schema: &Schema, doc: &Document, op: &Operation) -> Vec<(Str
     out
 }
 
+/// The document without its selections of deprecated fields (what `deny` generates code for);
+/// None when a selection set would become empty.
+fn strip_deprecated_doc(schema: &Schema, doc: &Document) -> Option<Document> {
+    fn strip(schema: &Schema, parent: Named, sel: &[Selection]) -> Option<Vec<Selection>> {
+        let mut out = Vec::new();
+        for s in sel {
+            match s {
+                Selection::Field(f) => {
+                    let d = schema.fields_of(parent).iter().find(|d| d.name == f.name)?.clone();
+                    if d.deprecated.is_some() {
+                        continue;
+                    }
+                    let mut f2 = f.clone();
+                    if d.ty.named.is_composite() {
+                        f2.sel = strip(schema, d.ty.named, &f.sel)?;
+                    }
+                    out.push(Selection::Field(f2));
+                }
+                Selection::Inline { on, sel } => {
+                    let t = schema.find_type(on)?;
+                    out.push(Selection::Inline { on: on.clone(), sel: strip(schema, t, sel)? });
+                }
+                other => out.push(other.clone()),
+            }
+        }
+        // a set left with nothing, or with `__typename` only, is a different shape (listed under D15 / D18)
+        if out.iter().all(|s| matches!(s, Selection::Typename)) {
+            return None;
+        }
+        Some(out)
+    }
+    let mut nd = doc.clone();
+    for d in nd.defs.iter_mut() {
+        match d {
+            Definition::Op(o) => {
+                let root = match o.kind {
+                    OpKind::Query => schema.query,
+                    OpKind::Mutation => schema.mutation?,
+                    OpKind::Subscription => schema.subscription?,
+                };
+                o.sel = strip(schema, Named::Object(root), &o.sel)?;
+            }
+            Definition::Frag(f) => {
+                let t = schema.find_type(&f.on)?;
+                f.sel = strip(schema, t, &f.sel)?;
+            }
+        }
+    }
+    Some(nd)
+}
+
 pub fn wire_name(f: &syn::Field) -> String {
     for a in &f.attrs {
         if a.path().is_ident("serde") {
@@ -390,7 +441,7 @@ fn classify(f: &Failure) -> Option<String> {
 }
 
 pub fn run(report: &mut Report, replay: Option<&Value>) {
-    report.rule = "schemas with ~30 % of object / interface fields deprecated (no reason / reasons with quotes, newlines, non-ASCII, backslashes, empty; SDL directive with quoted or block string; JSON isDeprecated), random selections (direct, through fragments, in variants). E2: tokens under allow / warn / deny / unset are compared structurally with syn: warn and unset = allow + #[deprecated(note = reason)] on exactly the model's deprecated selected fields (multiset of (wire key, reason)); deny = allow minus exactly those fields. E1: under deny, full payloads (containing the deprecated keys) still deserialise. Non-trivial: >= 1 deprecated field selected; distinct by hash(schema, document).".into();
+    report.rule = "schemas with ~30 % of object / interface fields deprecated (no reason / reasons with quotes, newlines, non-ASCII, backslashes, empty; SDL directive with quoted or block string; JSON isDeprecated), random selections (direct, through fragments, in variants). E2: tokens under allow / warn / deny / unset are compared structurally with syn: warn and unset = allow + #[deprecated(note = reason)] on exactly the model's deprecated selected fields (multiset of (wire key, reason)); deny = allow minus exactly those fields. E1: under deny, full payloads (containing the deprecated keys) still deserialise. Non-trivial: >= 1 deprecated field selected; distinct by hash(schema, document). Compiled part: under deny, full payloads and payloads without the denied fields both deserialise (the denied fields are not part of the types).".into();
     report.assumptions = vec!["syn parses the emitted tokens faithfully".into(), "the model's lookup of a selected field's deprecation uses the parent type of the selection set it appears in".into()];
     if let Some(v) = replay {
         if v["engine"] == "e2" {
@@ -403,7 +454,7 @@ pub fn run(report: &mut Report, replay: Option<&Value>) {
     super::replay_corpus(report, &|r, v| if v["engine"] == "e2" { replay_e2(r, v) } else { replay_e1(r, v) });
     let (n_syn, n_compiled) = if report.thorough() { (60_000, 1000) } else { (4_000, 100) };
     syn_campaign(report, n_syn);
-    // E1: deny keeps accepting full payloads
+    // E1: deny keeps accepting full payloads, and payloads without the denied fields
     let hooks = Hooks { classify: &classify, classify_compile: &|_, _| None, compile_failure_is_violation: false, rebuild: None };
     let mut stats = GenStats::default();
     let mut cfg = CaseCfg::default();
@@ -430,6 +481,27 @@ pub fn run(report: &mut Report, replay: Option<&Value>) {
         // structs emptied by deny are a listed finding of the E2 part; skip cases where a whole
         // selection set is deprecated
         it.expects = it.expects.iter().map(|_| crate::expect::Expectation::MustOk).collect();
+        // ... and payloads *without* the denied fields (what a server answers once they are gone):
+        // the denied fields are not part of the types, so nothing is missing
+        if let Some(doc2) = strip_deprecated_doc(&it.base.world.schema, &it.base.world.doc) {
+            let units = it.base.case.units.clone();
+            for (ui, u) in units.iter().enumerate() {
+                let Some(op2) = doc2.operation(&u.op_name).cloned() else { continue };
+                for k in 0..4u64 {
+                    let ex = crate::world::exec::Executor { schema: &it.base.world.schema, doc: &doc2, cfg: crate::world::exec::ExecCfg::default() };
+                    let sub = super::subtape(tp, 140_000 + (ui as u64) * 100 + k, 768);
+                    let p = ex.execute(&mut Tape::new(&sub), &op2);
+                    it.base.case.vectors.push(crate::e1::Vector { unit: ui, kind: "response".into(), name: String::new(), input: crate::world::exec::payload(&p) });
+                    it.expects.push(crate::expect::Expectation::MustOk);
+                    it.nt.push(Some(fnv_str(&[&it.base.case.schema_text, &it.base.case.document, "without-denied", &k.to_string(), &ui.to_string()])));
+                    it.labels.push(format!("payload without the denied fields #{} op={}", k, u.op_name));
+                    if !it.depends.is_empty() {
+                        it.depends.push(None);
+                    }
+                    report.feature("payload_without_denied_fields");
+                }
+            }
+        }
         items.push(it);
     }
     let classify2 = |_f: &Failure| -> Option<String> { Some("deny-empties-struct".into()) };
